@@ -241,6 +241,10 @@ def lean_stage(ctx, mod):
                 axioms[m.group(1)] = [x.strip() for x in m.group(2).replace("\n", " ").split(",") if x.strip()]
             for m in re.finditer(r"'([^']+)' does not depend on any axioms", audit_out):
                 axioms[m.group(1)] = []
+        if build_ok and ctx.tier == "thorough" and targets:
+            # independent re-check of the compiled proofs (replays every declaration through the kernel)
+            lc = _run(["lake", "env", "leanchecker"] + targets, LEAN, 1500)
+            ctx.obligation("leanchecker", "audit", lc.returncode == 0, (lc.stdout + lc.stderr)[-300:] if lc.returncode else "re-checked: " + " ".join(targets))
     ctx.extra["build_ok"] = build_ok
     if not build_ok:
         ctx.extra["build_log"] = build_log
